@@ -20,6 +20,7 @@ import (
 	"github.com/miekg/dns"
 	"github.com/semihalev/sdns/internal/dnsclient"
 	"github.com/semihalev/sdns/internal/dnsname"
+	"github.com/semihalev/sdns/internal/dnsutil"
 	"github.com/semihalev/sdns/internal/verif/vlib"
 	"github.com/semihalev/sdns/middleware/resolver"
 )
@@ -62,6 +63,10 @@ func exec(op string) vlib.Res {
 	case "cachef run":
 		if need(4) {
 			return execCachef(f)
+		}
+	case "relay run":
+		if need(4) {
+			return execRelay(f)
 		}
 	case "clr run":
 		if need(6) {
@@ -419,6 +424,29 @@ func genCachef(r *vlib.R, emit func(string)) {
 	emit(fmt.Sprintf("cachef run %s %s", qn, strings.ReplaceAll(listOrDash(as), ",", ";")))
 }
 
+// genRelay: an upstream answer section as the servers of `zone` might send it.
+func genRelay(r *vlib.R, emit func(string)) {
+	zone := vlib.Pick(r, baseZones)
+	if r.Chance(1, 4) {
+		zone = flipCase(r, zone)
+	}
+	n := r.Intn(6)
+	var as []string
+	for i := 0; i < n; i++ {
+		owner := related(r, strings.ToLower(zone))
+		if r.Chance(1, 5) {
+			owner = "www.victim.test."
+		}
+		typ := vlib.Pick(r, []int{1, 1, 5, 2, 39, 46, 16, 28, 6})
+		cov := 0
+		if typ == 46 {
+			cov = vlib.Pick(r, []int{1, 5, 39})
+		}
+		as = append(as, fmt.Sprintf("%s/%d/%d", owner, typ, cov))
+	}
+	emit(fmt.Sprintf("relay run %s %s", zone, strings.ReplaceAll(listOrDash(as), ",", ";")))
+}
+
 func localHex() []string {
 	var out []string
 	for _, ip := range resolver.VerifC07LocalIPs() {
@@ -443,6 +471,10 @@ func genL3(r *vlib.R, tier string, emit func(string)) {
 		k0 := r.Intn(8)
 		for i, s := range shapes {
 			emit(fmt.Sprintf("l3 attack %s %d", s, 1+(k0+i)%8))
+		}
+		if r.Chance(1, 3) {
+			// let answers (301 s), or answers and delegations (3601 s), expire before the victim names are asked
+			emit(fmt.Sprintf("l3 advance %d", vlib.Pick(r, []int{120, 301, 3601})))
 		}
 		order := r.Intn(len(victimNames))
 		for i := range victimNames {
@@ -547,8 +579,10 @@ func gen(r *vlib.R, n int, tier string, emit func(string)) {
 				ref = q[strings.Index(q, ".")+1:]
 			}
 			emit(fmt.Sprintf("prog run %s %s %s", ref, z, q))
-		case k < 19:
+		case k < 18:
 			genCachef(r, emit)
+		case k < 19:
+			genRelay(r, emit)
 		default:
 			emit(fmt.Sprintf("clr run %s %s %d %d", vlib.B(r.Bool()), vlib.Pick(r, []string{"-", "-", "f", "t"}), r.Intn(3), r.Intn(3)))
 			emit("glue usable " + genAddrHex(r, local))
@@ -597,6 +631,79 @@ func callOrder(file, fn string, callees ...string) []int {
 		})
 	}
 	return out
+}
+
+// filterBeforeSplice inspects Resolver.answer: a top-level statement assigns
+// FilterRRsToZone(resp.Answer, …) to resp.Answer, it is either unconditional or
+// guarded by `zone != ""` alone, and it precedes the top-level statement that
+// splices targetMsg.Answer into resp.Answer.
+func filterBeforeSplice(file string) bool {
+	fset := token.NewFileSet()
+	f, err := parser.ParseFile(fset, file, nil, 0)
+	if err != nil {
+		return false
+	}
+	isSel := func(e ast.Expr, x, sel string) bool {
+		s, ok := e.(*ast.SelectorExpr)
+		if !ok || s.Sel.Name != sel {
+			return false
+		}
+		id, ok := s.X.(*ast.Ident)
+		return ok && id.Name == x
+	}
+	for _, d := range f.Decls {
+		fd, ok := d.(*ast.FuncDecl)
+		if !ok || fd.Name.Name != "answer" || fd.Body == nil {
+			continue
+		}
+		filterAt, spliceAt := -1, -1
+		for i, st := range fd.Body.List {
+			hasFilter, hasSplice := false, false
+			ast.Inspect(st, func(n ast.Node) bool {
+				as, ok := n.(*ast.AssignStmt)
+				if !ok || len(as.Lhs) != 1 || len(as.Rhs) != 1 || !isSel(as.Lhs[0], "resp", "Answer") {
+					return true
+				}
+				c, ok := as.Rhs[0].(*ast.CallExpr)
+				if !ok || len(c.Args) < 2 {
+					return true
+				}
+				switch fn := c.Fun.(type) {
+				case *ast.SelectorExpr:
+					if fn.Sel.Name == "FilterRRsToZone" && isSel(c.Args[0], "resp", "Answer") {
+						if id, ok := c.Args[1].(*ast.Ident); ok && id.Name == "zone" {
+							hasFilter = true
+						}
+					}
+				case *ast.Ident:
+					if fn.Name == "append" && isSel(c.Args[0], "resp", "Answer") && isSel(c.Args[1], "targetMsg", "Answer") {
+						hasSplice = true
+					}
+				}
+				return true
+			})
+			if hasFilter && filterAt < 0 {
+				switch x := st.(type) {
+				case *ast.AssignStmt:
+					filterAt = i
+				case *ast.IfStmt:
+					// only `zone != ""` may guard it, and there is no else branch
+					if b, ok := x.Cond.(*ast.BinaryExpr); ok && b.Op == token.NEQ && x.Else == nil && x.Init == nil {
+						if id, ok := b.X.(*ast.Ident); ok && id.Name == "zone" {
+							if lit, ok := b.Y.(*ast.BasicLit); ok && lit.Value == `""` {
+								filterAt = i
+							}
+						}
+					}
+				}
+			}
+			if hasSplice && spliceAt < 0 {
+				spliceAt = i
+			}
+		}
+		return filterAt >= 0 && spliceAt > filterAt
+	}
+	return false
 }
 
 // (referral, authZone, qname): proper, self, self in other case, upward, root, sideways,
@@ -663,7 +770,9 @@ func facts() map[string]any {
 	}
 	var prog []bool
 	var cmp []int
+	var inZone []bool
 	for _, t := range probeTriples {
+		inZone = append(inZone, dnsutil.NameInZone(dns.CanonicalName(t[0]), dns.CanonicalName(t[1])))
 		prog = append(prog, resolver.VerifC07Progressing(t[0], t[1], t[2]))
 		cmp = append(cmp, dnsname.CompareSuffix(t[0], t[1]))
 	}
@@ -681,9 +790,12 @@ func facts() map[string]any {
 		"usable_loopback_probe":            loopUsable,
 		"usable_local_probe":               localUsable,
 		"usable_public_probe":              pub,
-		"question_match_probe":             qm,
-		"progressing_probe":                prog,
-		"compare_suffix_probe":             cmp,
+		// answer() filters the answer section to the asked zone before a DNAME target's data is spliced in
+		"shape_answer_filters_before_splice": filterBeforeSplice(rfile),
+		"in_zone_probe":                      inZone,
+		"question_match_probe":               qm,
+		"progressing_probe":                  prog,
+		"compare_suffix_probe":               cmp,
 	}
 }
 
